@@ -325,10 +325,17 @@ def run(ctx):
     # (c) stochastic variant: bounds
     ns = 120 if ctx.tier == 'quick' else 1200
     sreqs, smetas = [], []
-    for _ in range(ns):
+    deep = 1 if ctx.tier == 'quick' else 4
+    for it in range(ns + deep):
         h, w = r.randint(1, 5), r.randint(1, 5)
         cg = gen.rand_grid(r, h, w, floor_bias=0.5)
-        if r.random() < 0.5:
+        if it >= ns:
+            # a view more than a hundred cells deep (a long corridor, one wall across it somewhere): no depth is special
+            h, w = r.randint(103, 125), r.choice([1, 3])
+            bar = r.randrange(2, h - 2)
+            cg = tuple(tuple(WALL if y == bar else FLOOR for _ in range(w)) for y in range(h))
+            ctx.count('deep view', f'{h}x{w}')
+        elif r.random() < 0.5:
             # sparse pillars in views of the usual size: cells seen THROUGH gaps (fully lit cells beyond partially lit ones)
             h, w = r.choice([(5, 5), (7, 7), (6, 5), (5, 7), (6, 6), (8, 8), (4, 7), (3, 9)]) if r.random() < 0.7 else (r.randint(2, 9), r.randint(2, 9))
             cg = tuple(tuple(WALL if r.random() < r.choice([0.0, 0.08, 0.15, 0.25]) else FLOOR for _ in range(w)) for _ in range(h))
@@ -365,8 +372,9 @@ def run(ctx):
                 ctx.violation(f'stochastic_raytracing shows {sorted(set(got[1]) - set(det[1]))}, which the deterministic ray-traced view never shows', case)
             if not always <= set(got[1]):
                 ctx.violation(f'stochastic_raytracing hides {sorted(always - set(got[1]))}, which every ray reaches lit', case)
-            sreqs.append(vis_request('stochastic_raytracing', cg, pos, rng.tape))
-            smetas.append((cg, pos, got, mode))
+            if it < ns:          # (the deep corridors are decided by the bounds above; their ray tables are too large to ship to the model)
+                sreqs.append(vis_request('stochastic_raytracing', cg, pos, rng.tape))
+                smetas.append((cg, pos, got, mode))
     answers = ctx.model(sreqs)
     if answers is not None:
         for (cg, pos, got, mode), ans in zip(smetas, answers):
